@@ -85,13 +85,16 @@ def oracle_run(cfg):
             Jm = torch.stack(cols, 1)
             x = torch.tensor(r.standard_normal(shp), requires_grad=True)
             yl, yh = fwd(x); outs = [yl] + list(yh)
-            gs = [torch.tensor(r.standard_normal(tuple(o.shape))) for o in outs]
-            gx, = torch.autograd.grad(outs, [x], gs, allow_unused=True)
-            if gx is None:
-                return dict(detail='no gradient for the input')
-            want = Jm.t() @ flat(gs)
-            ok, msg = tol_close(gx.reshape(-1).numpy(), want.numpy(), max(1.0, float(want.abs().max())))
-            return None if ok else dict(detail='grad != J^T g: ' + msg)
+            for fam, gs in cot_families(r, [o.shape for o in outs]):
+                gx, = torch.autograd.grad(outs, [x], gs, allow_unused=True, retain_graph=True)
+                if gx is None:
+                    return dict(detail='no gradient for the input')
+                want = Jm.t() @ flat(gs)
+                sc = float(want.abs().max())
+                ok, msg = tol_close(gx.reshape(-1).numpy(), want.numpy(), sc if 0 < sc < 1 else max(1.0, sc))
+                if not ok:
+                    return dict(detail='grad != J^T g for cotangent [%s]: %s' % (fam, msg))
+            return None
         else:
             with torch.no_grad():
                 yl0, yh0 = fwd(torch.zeros(shp, dtype=torch.float64))
@@ -107,21 +110,22 @@ def oracle_run(cfg):
             Jm = torch.stack(cols, 1)          # out x in
             args = [torch.tensor(r.standard_normal(tuple(t.shape)), requires_grad=bool(s)) for t, s in zip(ins0, cfg['subset'])]
             y = inv((args[0], args[1:]))
-            g = torch.tensor(r.standard_normal(tuple(y.shape)))
             req = [a for a, s in zip(args, cfg['subset']) if s]
-            grads = torch.autograd.grad([y], req, [g], allow_unused=True)
-            want = Jm.t() @ g.reshape(-1)
             off = np.cumsum([0] + sizes)
-            gi = 0
-            for a, s in enumerate(cfg['subset']):
-                if not s: continue
-                gr = grads[gi]; gi += 1
-                if gr is None:
-                    return dict(detail='argument %d requires grad but received None' % a)
-                w = want[off[a]:off[a + 1]]
-                ok, msg = tol_close(gr.reshape(-1).numpy(), w.numpy(), max(1.0, float(want.abs().max())))
-                if not ok:
-                    return dict(detail='argument %d grad != J^T g: %s' % (a, msg))
+            for fam, (g,) in cot_families(r, [y.shape]):
+                grads = torch.autograd.grad([y], req, [g], allow_unused=True, retain_graph=True)
+                want = Jm.t() @ g.reshape(-1)
+                sc = float(want.abs().max()); sc = sc if 0 < sc < 1 else max(1.0, sc)
+                gi = 0
+                for a, s in enumerate(cfg['subset']):
+                    if not s: continue
+                    gr = grads[gi]; gi += 1
+                    if gr is None:
+                        return dict(detail='argument %d requires grad but received None' % a)
+                    w = want[off[a]:off[a + 1]]
+                    ok, msg = tol_close(gr.reshape(-1).numpy(), w.numpy(), sc)
+                    if not ok:
+                        return dict(detail='argument %d grad != J^T g for cotangent [%s]: %s' % (a, fam, msg))
             return None
     except (RuntimeError, ValueError) as e:
         if mode == 'reflect':
